@@ -507,8 +507,15 @@ func defaultRedirectTrailingSlashHandler(c Context) {
 		code = http.StatusPermanentRedirect
 	}
 
-	// The escaped form keeps reserved characters of the last segment ('?', '#', '%', ...) encoded in the Location.
-	url := FixTrailingSlash(req.URL.EscapedPath())
+	// The escaped form keeps reserved characters of the last segment ('?', '#', '%', ...) encoded in the Location. The
+	// router matches the raw path when there is one (see ServeHTTP), so the Location must be derived from that same
+	// string: when the raw form is not a valid encoding (e.g. it holds a raw non-ASCII byte), EscapedPath re-encodes the
+	// decoded path instead, which turns an encoded dot or slash of the matched path into a real one.
+	p := req.URL.EscapedPath()
+	if raw := req.URL.RawPath; raw != "" && raw != p {
+		p = escapeRawPath(raw)
+	}
+	url := FixTrailingSlash(p)
 
 	if url[len(url)-1] == '/' {
 		base := path.Base(url)
@@ -903,6 +910,29 @@ func localRedirect(w http.ResponseWriter, r *http.Request, path string, code int
 		body := "<a href=\"" + htmlEscape(path) + "\">" + http.StatusText(code) + "</a>.\n"
 		_, _ = fmt.Fprintln(w, body)
 	}
+}
+
+// escapeRawPath percent-encodes the bytes of a raw request path that may not appear literally in a URL path, and leaves
+// its own percent-escapes untouched (unlike URL.EscapedPath, which falls back to encoding the decoded path).
+func escapeRawPath(s string) string {
+	const upperhex = "0123456789ABCDEF"
+	ishex := func(c byte) bool { return '0' <= c && c <= '9' || 'a' <= c && c <= 'f' || 'A' <= c && c <= 'F' }
+	var sb strings.Builder
+	for i := 0; i < len(s); i++ {
+		c := s[i]
+		switch {
+		case c == '%' && i+2 < len(s) && ishex(s[i+1]) && ishex(s[i+2]):
+			sb.WriteString(s[i : i+3])
+			i += 2
+		case 'a' <= c && c <= 'z' || 'A' <= c && c <= 'Z' || '0' <= c && c <= '9' || strings.IndexByte("-._~!$&'()*+,;=:@/", c) >= 0:
+			sb.WriteByte(c)
+		default:
+			sb.WriteByte('%')
+			sb.WriteByte(upperhex[c>>4])
+			sb.WriteByte(upperhex[c&15])
+		}
+	}
+	return sb.String()
 }
 
 func hexEscapeNonASCII(s string) string {
